@@ -37,19 +37,19 @@ type Case struct {
 	// HeaderName: the declared spelling of the extra header ("" = X-V); HTTP header names are case-insensitive
 	HeaderName string `json:"header_name,omitempty"`
 	// HeaderByContent: the header is declared through content (application/json) instead of schema
-	HeaderByContent bool `json:"header_by_content,omitempty"`
-	HeaderVal     string `json:"header_val"` // JSON value of the extra declared header X-V (when present)
-	HeaderSent    bool   `json:"header_sent"`
-	HeaderReq     bool   `json:"header_required"`
+	HeaderByContent bool   `json:"header_by_content,omitempty"`
+	HeaderVal       string `json:"header_val"` // JSON value of the extra declared header X-V (when present)
+	HeaderSent      bool   `json:"header_sent"`
+	HeaderReq       bool   `json:"header_required"`
 	// content
 	Schema  string `json:"schema"` // JSON schema of application/json content ("" = no content declared)
 	Body    string `json:"body"`   // JSON text of the body value
 	RawBody string `json:"raw_body,omitempty"`
-	CT      string `json:"ct"`                 // response Content-Type
+	CT      string `json:"ct"` // response Content-Type
 	// DeclCT: the key under which the content is declared ("" = application/json); AltCT adds a second
 	// entry "application/json" whose schema nothing satisfies, so a wrong selection is visible
-	DeclCT string `json:"decl_ct,omitempty"`
-	AltCT  bool   `json:"alt_ct,omitempty"`
+	DeclCT  string `json:"decl_ct,omitempty"`
+	AltCT   bool   `json:"alt_ct,omitempty"`
 	Opts    int    `json:"opts"`               // 1 IncludeResponseStatus, 2 ExcludeResponseBody, 4 ExcludeWriteOnlyValidations, 8 MultiError
 	PreOpts int    `json:"pre_opts,omitempty"` // > 0: option bits of a response validated first against the same document
 }
